@@ -244,6 +244,13 @@ def call_class(I, cls, args, kwargs):
         return ev
     if issubclass(cls, enum.Enum):
         if itp.has_sym(args):
+            import dns.enum
+
+            if issubclass(cls, dns.enum.IntEnum) and len(args) == 1 and isinstance(args[0], SInt) and not kwargs:
+                # dns.enum.IntEnum accepts every int its _check_value accepts (known member or
+                # _missing_ pseudo-member) and the result is that int (A-lib: enum is value preserving)
+                call(I, getattr(cls, "_check_value"), [args[0]], {})
+                return args[0]
             raise Unsupported(f"enum constructor {cls.__name__} on a symbolic value (use a contract for make())")
         try:
             return cls(*args, **kwargs)
